@@ -24,7 +24,7 @@ ASSUMPTIONS = [
   "prefix(name): drop a trailing [lo:hi] slice, else drop the last .attr with its [i] indices",
   "names are compared as strings produced by repr(obj); evaluation uses Python's eval on the elaborated (unlocked) model",
 ]
-QUICK_S = 80
+QUICK_S = 240
 THOROUGH_S = 1200
 
 _uid = itertools.count()
